@@ -111,6 +111,11 @@ func (s *Sched) atomicOp(fr *frame, cell *value) {
 	}
 }
 
+func mustTerm(v value) *Term {
+	t, _ := termOf(v)
+	return t
+}
+
 func poolNew(fr *frame, pool *value) value {
 	p := (*pool).(structure)
 	newf := p[len(p)-1]
@@ -712,6 +717,17 @@ func init() {
 	}
 	I["internal/bytealg.IndexByte"] = I["bytes.IndexByte"]
 	I["internal/bytealg.IndexByteString"] = I["strings.IndexByte"]
+	countByte := func(fr *frame, b []value, c value) value {
+		n := 0
+		for _, e := range b {
+			if fr.cond(valueOf(mkEq(mustTerm(e), mustTerm(c)), types.Bool)) {
+				n++
+			}
+		}
+		return n
+	}
+	I["internal/bytealg.CountString"] = func(fr *frame, args []value) value { return countByte(fr, strBytes(args[0]), args[1]) }
+	I["internal/bytealg.Count"] = func(fr *frame, args []value) value { return countByte(fr, args[0].([]value), args[1]) }
 	I["strings.LastIndexByte"] = func(fr *frame, args []value) value {
 		b := strBytes(args[0])
 		for i := len(b) - 1; i >= 0; i-- {
